@@ -4,15 +4,18 @@ Open Scope N_scope.
 Inductive case :=
 | CSnap (i : snap_in) (snap restart : list view) (bad : bool)
 | CUpd (i : upd_in) (os : list (list (N * N) * N)) (reads : list N) (bad : bool)
-| CGrp (named : bool) (keys objs : N) (bad : bool).
+| CGrp (named : bool) (keys objs : N) (bad : bool)
+| CDyn (i : dyn_in) (reads : list (list view)) (bad : bool).
 
-Inductive mo := MSnap (s r : list view) | MUpd (os : list (list (N * N) * N)) (reads : list N) | MGrp (k o : N).
+Inductive mo := MSnap (s r : list view) | MUpd (os : list (list (N * N) * N)) (reads : list N) | MGrp (k o : N)
+  | MDyn (reads : list (list view)).
 
 Definition model_obs (c : case) : mo :=
   match c with
   | CSnap i _ _ _ => MSnap (snapshot_view i) (if si_restart i then restart_view i else [])
   | CUpd i _ _ _ => let (os, rs) := update i in MUpd os rs
   | CGrp n _ _ _ => let (k, o) := grp n in MGrp k o
+  | CDyn i _ _ => MDyn (dyn_views i)
   end.
 
 Definition views_eqb : list view -> list view -> bool := list_eqb view_eqb.
@@ -26,6 +29,7 @@ Definition agrees (c : case) : bool :=
   | CUpd i os rs bad => let (mos, mrs) := update i in
                         negb bad && list_eqb ctxo_eqb mos os && list_eqb N.eqb mrs rs
   | CGrp n k o bad => let (mk, mo) := grp n in negb bad && N.eqb mk k && N.eqb mo o
+  | CDyn i rs bad => negb bad && list_eqb views_eqb (dyn_views i) rs
   end.
 
 Definition spec_ok (c : case) : bool :=
@@ -33,6 +37,7 @@ Definition spec_ok (c : case) : bool :=
   | CSnap i s r bad => P_view i s r bad
   | CUpd i os rs bad => P_upd i os rs bad
   | CGrp _ k o bad => P_grp k o bad
+  | CDyn i rs bad => P_dyn i rs bad
   end.
 
 Definition mismatches (cs : list case) : list N := indices_where (fun c => negb (agrees c)) cs.
@@ -41,3 +46,6 @@ Definition trigger_F25 (cs : list case) : list N :=
   indices_where (fun c => match c with CGrp n _ _ _ => T_grp n | _ => false end) cs.
 Definition trigger_F26 (cs : list case) : list N :=
   indices_where (fun c => match c with CSnap i _ _ _ => T_ghost i | _ => false end) cs.
+(* the namespace-level ghost (reported, not yet a recorded finding: no case of it is generated) *)
+Definition trigger_NSGHOST (cs : list case) : list N :=
+  indices_where (fun c => match c with CDyn i _ _ => T_nsghost i | _ => false end) cs.
